@@ -8,7 +8,8 @@ repeats the previous message.
 * wire: `G` (undecodable) or
   `M,<payload>,<v4sup>,<v6sup>,<registrant>,<source>,<transport>,<libver>,<prescanned>,<rr>,<oracles>,<disableOverrides>,<rrOracles>` with
   registrant = `-` (absent) | `e` (present, empty) | hex; rr = `-` | `<dport>:<ipv4>:<ipv6>:<tparams 0/1>` (each `-` if absent);
-  oracles = `<sel4>:<sel6>:<paramsOk>:<tpPort>:<proto>:<geoOk>:<covertOk>:<live>:<ident>` with sel = `-` | `<hex>/<rnd>`
+  oracles = `<sel4>:<sel6>:<paramsOk>:<tpPort>:<proto>:<geoOk>:<covertOk>:<live>:<ident>` with sel = `-` | `<hex>/<rnd>`, live = `<0/1>` or
+  `<0/1>.<error kind of the verdict>.<peer behaviour>` (see `Oracles.liveErr`, `Oracles.peer`)
   (paramsOk / tpPort: the transport's verdicts on the CLIENT's parameters); rrOracles = `<paramsOk>:<tpPort>`: its verdicts on
   the registrar's parameter override (the model decides which are in force).
 Answer per message: `<w4>,<w6>;<parse>;<events>;<state4>,<state6>`. -/
@@ -36,11 +37,19 @@ def parseRR (s : String) : Option (Option RR) :=
     | [p, a4, a6, tp] => do some (some { dstPort := ← optNat p, ipv4 := ← optNat a4, ipv6 := ← optBytes a6, tparams := ← parseBool tp })
     | _ => none
 
+/-- the liveness verdict: `<live>` or `<live>.<error kind>.<peer behaviour>` -/
+def parseVerdict (s : String) : Option (Bool × Nat × Nat) :=
+  match s.splitOn "." with
+  | [b] => do some (← parseBool b, 0, 0)
+  | [b, e, p] => do some (← parseBool b, ← e.toNat?, ← p.toNat?)
+  | _ => none
+
 def parseOracles (s : String) : Option Oracles :=
   match s.splitOn ":" with
   | [s4, s6, pk, tp, pr, g, cv, lv, id] => do
+    let (live, lerr, peer) ← parseVerdict lv
     some { sel4 := ← parseSel s4, sel6 := ← parseSel s6, paramsOk := ← parseBool pk, tpPort := ← optNat tp, proto := ← pr.toNat?,
-           geoOk := ← parseBool g, covertOk := ← parseBool cv, live := ← parseBool lv, ident := id }
+           geoOk := ← parseBool g, covertOk := ← parseBool cv, live := live, ident := id, liveErr := lerr, peer := peer }
   | _ => none
 
 def parseWire (s : String) : Option Wire :=
